@@ -236,6 +236,14 @@ func (a *sideEffectActor) InboxForwarding(c context.Context, inboxIRI *url.URL, 
 	col := make(map[string]itemser)
 	oCol := make(map[string]orderedItemser)
 	for _, iri := range myIRIs {
+		// A collection named more than once (for example in both 'to' and
+		// 'cc') is already loaded and its lock is still held: do not lock
+		// it a second time.
+		if _, ok := col[iri.String()]; ok {
+			continue
+		} else if _, ok := oCol[iri.String()]; ok {
+			continue
+		}
 		err = a.db.Lock(c, iri)
 		if err != nil {
 			return err
